@@ -112,7 +112,7 @@ func c12AgentsTopo(r *verifkit.R, ci int, t fmTopo, echo *fmEcho) {
 		}
 	}
 	r.Eval(t.Name, multihop > 0)
-	if vio == 0 {
+	if r.NeedSample() {
 		r.Sample(map[string]any{"topology": t.Name, "edges": t.Edges, "pairs": rows})
 	}
 }
